@@ -154,7 +154,7 @@ def run(chk):
             continue
         for a, head, rows in assigns:
             cid = dict(pitcheck.case_id(r, a), kind='net')
-            chk.count((tuple(r['prog']), a['request']), bucket='net:' + a['style'],
+            chk.count((tuple(r['prog']), a.get('request') or (a['style'], r['spec']['seed'])), bucket='net:' + a['style'],
                       sample={'prog': r['prog'], 'style': a['style'], 'min_sizes': a.get('min_sizes')} if a['style'] == 'min' else None)
             if a.get('export_error'):
                 chk.violation('C08:export-fails', 'export()/exported forward raises with masks at %s: %s' % (a['style'], a['export_error']), cid)
